@@ -7,6 +7,11 @@ TB_COMMON = [
     "Go compiler/runtime",
 ]
 
+CODEC_TB = TB_COMMON + [
+    "Codec/Sem.v: the reading of the generator template (binary.Read/Write on bytes.Buffer, SetLen allocation, NewX, Octet[:Len] slicing) as decode_def/encode_def; validated on every run by ~10^4 decode/encode/dispatch cases replayed on the Coq functions",
+    "canon_ok: the Go functions equal canon_dec/canon_enc of the extracted definition (kernel-evaluated) -- a harmless rewrite of a generated function breaks it",
+    "pinned Spec/*.v tables (message types, element tables) transcribed from TS 24.501"]
+
 PROPS = {}
 
 
@@ -21,5 +26,5 @@ def load_all():
     for f in sorted(glob.glob(os.path.join(d, "C*.py"))):
         spec = importlib.util.spec_from_file_location("props_" + os.path.basename(f)[:-3], f)
         m = importlib.util.module_from_spec(spec)
-        m.reg, m.TB_COMMON = reg, TB_COMMON
+        m.reg, m.TB_COMMON, m.CODEC_TB = reg, TB_COMMON, CODEC_TB
         spec.loader.exec_module(m)
